@@ -26,7 +26,7 @@ ANCHORS = [("leuvenmapmatching/matcher/base.py", "BaseMatcher._match_states"),
            ("leuvenmapmatching/map/sqlite.py", "SqliteMap.nodes_nbrto"),
            ("leuvenmapmatching/map/sqlite.py", "SqliteMap.edges_nbrto")]
 FLOORS = {"consecutive_pairs": 6000, "pairs_inside_nonemitting_runs": 700, "paths_judged": 4000, "nodes_only_views": 3000, "linked_edge_maps": 200,
-          "sqlite_maps": 200, "oneway_maps": 800, "selfloop_maps": 300, "uturn_moves": 100, "linked_moves": 5, "lattice_links_scanned": 100000, "shared_end_linked_cases": 300, "shared_end_cases_using_the_linked_move": 50, "rebuilt_sqlite_maps_with_stale_links": 100}
+          "sqlite_maps": 200, "oneway_maps": 800, "selfloop_maps": 300, "uturn_moves": 100, "linked_moves": 5, "lattice_links_scanned": 100000, "shared_end_linked_cases": 300, "shared_end_cases_using_the_linked_move": 50, "rebuilt_sqlite_maps_with_stale_links": 100, "sqlite_maps_with_self_listed_node": 80, "sqlite_parked_at_self_listed_node": 40}
 ASSUMPTIONS = ["after continue_with_distance (a jump operation) only the existence of the states is judged, as the property states"]
 
 
@@ -113,7 +113,16 @@ def gen_case(rng, i, tier):
         m["linked"] = linked
     case["backend"] = "sqlite" if sq else "inmem"
     if sq:
-        m["edges"] = [e for e in m["edges"] if e[0] != e[1]]  # SqliteMap has no self-listed neighbours idiom
+        if rng.random() < 0.5:
+            m["edges"] = [e for e in m["edges"] if e[0] != e[1]]  # half of the SQLite maps without self-listed nodes
+        elif rng.random() < 0.5 and m["nodes"]:
+            # a node that lists itself (as found in imported data), and a vehicle parked next to it
+            l0, p0 = rng.choice(m["nodes"])
+            if [l0, l0] not in m["edges"]:
+                m["edges"].append([l0, l0])
+            nz = rng.choice([0.02, 0.1, 0.3])
+            case["trace"] = [[p0[0] + rng.gauss(0, nz), p0[1] + rng.gauss(0, nz)] for _ in range(rng.randint(2, 6))]
+            case["parked_at_self_listed_node"] = True
         if rng.random() < 0.5:
             case["rebuilt"] = rng.choice([0.5, 1.0, 2.0, 5.0])
             case["cfg"]["non_emitting"] = rng.random() < 0.7
@@ -149,6 +158,10 @@ def check_case(ctx, case):
                 old.db.close()
         mp = sm = build.make_sqlite(m, ctx.scratch, name=name)
         ctx.count("sqlite_maps")
+        if any(a == b for a, b in m["edges"]):
+            ctx.count("sqlite_maps_with_self_listed_node")
+        if case.get("parked_at_self_listed_node"):
+            ctx.count("sqlite_parked_at_self_listed_node")
     else:
         mp = build.make_inmem(m)
     if m.get("linked"):
